@@ -4,7 +4,7 @@ def run(ctx):
     st = [dict(variant="asan", name="c14", sources=["checks/c14_resume.c", "harness/mx_wraps.c"], wraps=WRAPS,
                shards=vflib.NCPU, timeout=14400 if ctx.thorough else 1200)]
     rule = ("Each case = one operation of a history executed against the real server in a fork()ed child (fresh process-global session cache per history; "
-            "histories are a pure function of (seed, index): a fixed set of scripted class histories per version x credential kind plus seeded random ones over 4-40 clients and two server key sets). "
+            "TLS servers enable TLS 1.1, 1.2 and 1.3 at once, the client fixes the version; histories are a pure function of (seed, index): a fixed set of scripted class histories per version x credential kind plus seeded random ones over 4-40 clients and two server key sets). "
             "Operations: full handshake, resume by id / RFC 5077 ticket / TLS 1.3 PSK, replay of any issued credential with the true, a random or an all-zero secret, ClientHello edited on the wire "
             "(session id truncated/edited/replaced, ticket edited/truncated/extended/re-named, PSK identity/age/binder edited, suite removed, EMS flipped, cross-version ticket), other server key set, "
             "other protocol version, clock steps around both lifetimes and far beyond, fatal alert sent/received on a live or resumed connection, close, abandoned handshake, cache fill beyond 32, "
